@@ -121,8 +121,13 @@ Definition do_write (e : eng) (tx : N) (c : cond) (f : eng -> N * row -> eng) : 
   end.
 
 (* --- rollback --- *)
-(* apply_undo_entry; the bool says whether the slab operation failed (collected, rollback continues) *)
-Definition apply_undo (e : eng) (u : undo) : eng * bool :=
+(* apply_undo_entry; the bool says whether the slab operation failed (collected, rollback continues).
+   gb = the undo only ADDS B-tree entries for columns that have a B-tree index (regenerated from the source);
+   hash entries are written unconditionally (harmless: an Eq lookup reads a single value bucket and re-checks). *)
+Definition badd_guarded (gb : bool) (e : eng) (c v rid : N) (l : list ent) : list ent :=
+  if gb && negb (existsb (N.eqb c) (bmeta e)) then l else eadd (c, v, rid) l.
+
+Definition apply_undo (gb : bool) (e : eng) (u : undo) : eng * bool :=
   match u with
   | UIns rid ents =>
       let '(rows', err) := match nth_row (rows e) rid with
@@ -137,21 +142,21 @@ Definition apply_undo (e : eng) (u : undo) : eng * bool :=
                            | None => (rows e, true) end in
       (with_idx e rows'
          (fold_left (fun l c => eadd (fst (fst c), snd (fst c), rid) (eremove (fst (fst c), snd c, rid) l)) chg (hent e))
-         (fold_left (fun l c => eadd (fst (fst c), snd (fst c), rid) (eremove (fst (fst c), snd c, rid) l)) chg (bent e)), err)
+         (fold_left (fun l c => badd_guarded gb e (fst (fst c)) (snd (fst c)) rid (eremove (fst (fst c), snd c, rid) l)) chg (bent e)), err)
   | UDel rid oa ob ents =>
       let '(rows', err) := match nth_row (rows e) rid with
                            | Some cur => if alive cur then (rows e, true) else (set_row (rows e) rid (R true oa ob), false)
                            | None => (rows e, true) end in
       (with_idx e rows'
          (fold_left (fun l cv => eadd (fst cv, snd cv, rid) l) ents (hent e))
-         (fold_left (fun l cv => eadd (fst cv, snd cv, rid) l) ents (bent e)), err)
+         (fold_left (fun l cv => badd_guarded gb e (fst cv) (snd cv) rid l) ents (bent e)), err)
   end.
 
 Definition end_tx (e : eng) (tx : N) : eng := with_txs e (adel (txs e) tx) (release tx (ltab e)).
 
 (* rollback: undo entries in reverse order, then ALWAYS release and remove; returns whether any undo failed *)
-Definition do_rollback (e : eng) (tx : N) (log : list undo) : eng * bool :=
-  let '(e1, err) := fold_left (fun ae u => let '(e', er) := apply_undo (fst ae) u in (e', snd ae || er)) (List.rev log) (e, false) in
+Definition do_rollback (gb : bool) (e : eng) (tx : N) (log : list undo) : eng * bool :=
+  let '(e1, err) := fold_left (fun ae u => let '(e', er) := apply_undo gb (fst ae) u in (e', snd ae || er)) (List.rev log) (e, false) in
   (end_tx e1 tx, err).
 
 (* --- operations --- *)
@@ -170,7 +175,7 @@ Inductive rop :=
 (* return codes: [0; x] Ok(x) / [0] Ok, [1] TransactionNotFound, [3] RollbackFailed,
    [4; blocking; row] LockConflict, [5] IndexAlreadyExists *)
 Section Step.
-Variable lock_new : bool.
+Variables lock_new gb : bool.
 
 Definition stmt (e : eng) (tx : N) (o : rop) : eng * list N :=
   match o with
@@ -207,7 +212,7 @@ Definition rstep (e : eng) (o : rop) : eng * list N :=
       let '(e1, ret) := stmt e0 tx o in
       if is_ok ret then (end_tx e1 tx, ret)
       else let log := match aget (txs e1) tx with Some l => l | None => [] end in
-           (fst (do_rollback e1 tx log), ret)
+           (fst (do_rollback gb e1 tx log), ret)
   | RCommit tx =>
       match aget (txs e) tx with
       | Some _ => (end_tx e tx, [0])
@@ -215,7 +220,7 @@ Definition rstep (e : eng) (o : rop) : eng * list N :=
       end
   | RRollback tx =>
       match aget (txs e) tx with
-      | Some log => let '(e', err) := do_rollback e tx log in (e', [if err then 3 else 0])
+      | Some log => let '(e', err) := do_rollback gb e tx log in (e', [if err then 3 else 0])
       | None => (e, [1])
       end
   | RCreateIndex col =>
@@ -249,9 +254,17 @@ Fixpoint candidates (e : eng) (c : cond) : option (list N) :=
   | CTrue => None
   end.
 
-(* select: ids of the answer (both paths re-check the condition on the live row and sort by id) *)
+Fixpoint insert_sorted (x : N) (l : list N) : list N :=
+  match l with [] => [x] | y :: r => if N.leb x y then x :: l else y :: insert_sorted x r end.
+Definition sortN (l : list N) : list N := fold_right insert_sorted [] l.
+
+Definition row_ok (e : eng) (c : cond) (rid : N) : bool :=
+  match nth_row (rows e) rid with Some r => alive r && evalc c r | None => false end.
+
+(* select: ids of the answer.  Index path: every candidate id (one per index bucket that lists it, so a row that
+   sits in two B-tree buckets of the range is fetched twice) is fetched, re-checked on the live row, sorted by id *)
 Definition select_ids (e : eng) (c : cond) : list N :=
   match candidates e c with
-  | Some ids => map fst (filter (fun ir => existsb (N.eqb (fst ir)) ids && evalc c (snd ir)) (scan (rows e)))
+  | Some ids => sortN (filter (row_ok e c) ids)
   | None => map fst (matching e c)
   end.
